@@ -266,6 +266,45 @@ def solveKeplerProblemUniversal({", ".join(prm)}):
         res = refdefs.compare(ks.node, ast.parse(ref_src).body[0], names=("alpha", "chi", "psi", "c2", "c3", "tmp", "r", "f", "g", "fdot", "gdot", "<return>", "p", "s", "sqrt_a"), unknown_calls={nm_ for nm_ in ks.module.functions if nm_ not in ref_src and not nm_.startswith("__")})
         bad = [text for _nm, text, _ln in res["mismatch"]]
         unsure = [text for _nm, text, _ln in res["unsure"] if _nm not in ("chi_old",)]
+        # the time of flight and the initial state are the caller's: the reference never re-binds them.  The one
+        # legitimate re-binding is the removal of whole revolutions of a closed orbit, by the orbit's own period
+        # 2 pi sqrt(a^3 / mu) with a = 1 / alpha - anything else shifts the point reached along the orbit
+        from rsa import ratfun as rf
+        from rsa.terms import inline_locals as _il
+
+        for n_ in walk_no_nested(ks.node):
+            tgs_ = n_.targets if isinstance(n_, ast.Assign) else [n_.target] if isinstance(n_, (ast.AugAssign, ast.AnnAssign)) else []
+            for tg_ in tgs_:
+                if not (isinstance(tg_, ast.Name) and tg_.id in ("tof", "mu", "init_state")):
+                    continue
+                v_ = getattr(n_, "value", None)
+                red = None
+                if tg_.id == "tof" and isinstance(n_, ast.Assign) and isinstance(v_, ast.Call) and call_name(v_) in ("fmod", "remainder", "mod") and len(v_.args) == 2 and unparse(v_.args[0]) == "tof":
+                    red = v_.args[1]
+                elif tg_.id == "tof" and isinstance(v_, ast.BinOp) and isinstance(v_.op, ast.Mod) and unparse(v_.left) == "tof":
+                    red = v_.right
+                elif tg_.id == "tof" and isinstance(n_, ast.AugAssign) and isinstance(n_.op, ast.Mod):
+                    red = v_
+                if red is None:
+                    unsure.append(f"`{unparse(n_)[:60]}` re-binds the caller's `{tg_.id}` (the reference does not)")
+                    continue
+                red = _il(ks, red)
+                a_ = red.args[0] if isinstance(red, ast.Call) and call_name(red) == "getPeriod" and red.args else None
+                a_ = a_ if a_ is not None else next((k.value for k in getattr(red, "keywords", []) if k.arg == "sma"), None)
+                if a_ is None:
+                    unsure.append(f"`{unparse(n_)[:60]}`: whole revolutions removed by `{unparse(red)[:40]}`, not recognised as getPeriod(semi-major axis)")
+                    continue
+                try:
+                    is_sma = rf.same_value(a_, rf.parse("1 / alpha")) or rf.same_value(a_, _il(ks, rf.parse("1 / alpha")))
+                except Exception:  # noqa: BLE001
+                    is_sma = False
+                semi_latus = any(isinstance(c_, ast.Call) and call_name(c_) == "getAngularMomentum" for c_ in ast.walk(a_)) and not any(isinstance(c_, ast.Call) and call_name(c_) in ("getEccentricity", "getEccentricityVector") or (isinstance(c_, ast.Name) and c_.id in ("ecc", "e")) for c_ in ast.walk(a_))
+                if is_sma:
+                    pass
+                elif semi_latus:
+                    bad.append(f"whole revolutions are removed with the period of `{unparse(a_)[:50]}`: h^2 / mu is the semi-latus rectum a (1 - e^2), not the semi-major axis 1 / alpha - for an eccentric orbit the flight is shortened by a wrong period and the state returned is another point of the orbit")
+                else:
+                    unsure.append(f"`{unparse(n_)[:60]}`: `{unparse(a_)[:40]}` is not recognised as the semi-major axis 1 / alpha")
         cfg = cfg_of(ks)
         chk_nodes = [n for n in cfg.nodes if n.kind == "cond" and "f * gdot - fdot * g" in unparse(n.ast)]
         ret_nodes = [n for n in cfg.nodes if n.kind == "return"]
